@@ -25,6 +25,8 @@ def run(ctx):
                    "deletion lengths and merged-change patch indexes are widths in the document's encoding (C15 / C24 rules re-run).")
     ctx.not_decided = "that each logged patch describes the op's effect on the view (conflict flags, counters, exposes); patches computed by diffing heads (C08)."
     ctx.rule("P1", "who-must-log: a push / extend onto TransactionInner.pending is dominated by a patch-log call, or every path from it to a return passes one or the is_active() == false edge")
+    ctx.rule("P4", "PatchLog::get_path_map: the cached path map is dropped on an (in)equality test of path_hint against events_len(), not an ordering test (any event logged since invalidates it)")
+    ctx.rule("P5", "ValueState::{map_process, list_flush}: the conflict argument of every put_map / put_seq / replace_seq is computed from the patch state, never a literal")
     ctx.rule("P2", "C15 R7-pair re-run")
     ctx.rule("P3", "C24 E6 (delete_seq lengths) and E4 (Untangler index steps) re-run")
     f = ctx.facts()
@@ -103,6 +105,53 @@ def run(ctx):
             ctx.ob("P1", k, before or after, t["sp"], "logged before it is recorded" if before else ("logged on every path after it (or the log is inactive)" if after else "") or
                    "a local op is recorded in the transaction without being handed to the patch log on some path: a view kept up to date from the patches misses this edit")
     ctx.floor("local-op recording sites in transaction::inner", n, 8)
+    check_patch_state_flags(ctx, f)
+    check_path_hint(ctx, f)
     C15.check_expose_pair(ctx, f)
     C24.check_delete_lengths(ctx, f)
     C24.check_untangler_index(ctx, f)
+
+
+def check_patch_state_flags(ctx, f):
+    CONFLICT_ARG = {"put_map": 5, "put_seq": 5, "replace_seq": 6}
+    n = 0
+    for p, r in sorted(f.fns.items()):
+        np_ = norm_fn(p)
+        if r["ckey"] != ("automerge", "lib") or not np_.startswith("automerge::op_set2::change::batch::ValueState::"):
+            continue
+        b = cfg.body(r)
+        sites = [(bi, t) for bi, t in b.calls() if (callee(t) or "").startswith("automerge::patches::patch_log::PatchLog::") and callee(t).split("::")[-1] in CONFLICT_ARG]
+        for k, (bi, t) in util.ordinal_keys(sites, lambda it: "%s|%s conflict flag" % (np_.split("::")[-1], callee(it[1]).split("::")[-1])):
+            n += 1
+            ctx.analysed_fns.add(p)
+            a = t["args"][CONFLICT_ARG[callee(t).split("::")[-1]]]
+            lit = util.op_const(a)
+            ctx.ob("P5", k, lit is None, t["sp"], "computed from the patch state" if lit is None else
+                   "the patch carries a literal conflict flag (%s): after a merge that leaves (or resolves) a conflict the materialized view shows the wrong conflict state" % lit.get("v"))
+    ctx.floor("conflict-flagged patch calls in ValueState", n, 8)
+
+
+def check_path_hint(ctx, f):
+    GP = [p for p in f.fns if norm_fn(p) == "automerge::patches::patch_log::PatchLog::get_path_map"]
+    if len(GP) != 1:
+        raise facts.AnchorMissing("PatchLog::get_path_map")
+    b = cfg.body(f.fns[GP[0]])
+    ctx.analysed_fns.add(GP[0])
+    tests = []
+    for sb, sw in b.switches():
+        src = b.bool_operand_source(sw["op"])
+        if src and src["kind"] == "bin" and src["op"] in ("Eq", "Ne", "Lt", "Le", "Gt", "Ge"):
+            flds = set()
+            calls_ = set()
+            for o in src["o"]:
+                pl = o.get("c") or o.get("m")
+                if pl:
+                    og = b.origin(pl["l"], tuple(pl["p"]))
+                    flds |= {e for e in og[1] if e.startswith(".")}
+                    calls_ |= {norm_fn(c).split("::")[-1] for c in b.provenance(o, through_calls=False).callees()}
+            if ".path_hint" in flds and "events_len" in calls_:
+                tests.append(src["op"])
+    ctx.floor("comparisons of path_hint with events_len()", len(tests), 1)
+    ok = bool(tests) and all(t in ("Eq", "Ne") for t in tests)
+    ctx.ob("P4", "get_path_map|cache valid only when nothing was logged since", ok, b.rec["sp"], "equality test" if ok else
+           "the cached object paths are kept under an ordering test (%s): events logged after the paths were computed (an object moved inside a list) leave patches addressed to the old path" % tests)
